@@ -90,7 +90,7 @@ func discharge(obls []*Obligation, workDir string, tier string, jobs int) {
 		}
 	}()
 	obls = leaders
-	budget := []int{15, 15, 15}
+	budget := []int{20, 20, 20}
 	if tier == "thorough" {
 		budget = []int{90, 90, 90}
 	}
